@@ -852,6 +852,78 @@ def d5_ladders(chk: Check) -> None:
             chk.ok("C16-D7", fi, fi.node, fi.short, "arm reachable", False)
 
 
+TEXT_CHANGERS = {
+    "strip", "lstrip", "lower", "upper", "casefold", "title", "capitalize",
+    "swapcase", "replace", "translate", "expandtabs", "removeprefix",
+    "removesuffix", "center", "ljust", "rjust", "zfill", "split",
+    "splitlines", "partition", "rpartition", "encode", "format",
+}
+
+
+def d11_value_as_supplied(chk: Check) -> None:
+    """yaml-set stores the replacement value it was given.  The one
+    documented adjustment is that trailing white-space of a value *file* is
+    discarded (`--file ... discarding any trailing new-lines`): `.rstrip()`
+    with no argument on the file's text.  Any other text-changing call on
+    the way from the option / stream / file to `set_value` writes a value
+    that is not the supplied one (leading white-space of an indented
+    fragment, case, ...)."""
+    prog = chk.prog
+    chk.rule("C16-D11", "each input arm of yaml-set hands the supplied text "
+             "on unchanged (a value file loses trailing white-space only)",
+             floor=4)
+    from rules.c17 import fn, SET
+    fi = fn(prog, SET, "main")
+    sets = [c for c in walk_local(fi.node) if isinstance(c, ast.Call) and
+            src(c.func).endswith(("set_value", "_set_nodes",
+                                  "set_eyaml_value"))]
+    if not sets:
+        raise AnalysisError("yaml-set main(): no set call found")
+    val_names: Set[str] = set()
+    for c in sets:
+        for a in list(c.args) + [k.value for k in c.keywords]:
+            if isinstance(a, ast.Name) and "value" in a.id:
+                val_names.add(a.id)
+    if not val_names:
+        raise AnalysisError("yaml-set main(): replacement value variable "
+                            "not found")
+    n_arms = 0
+    for n in walk_local(fi.node):
+        if not (isinstance(n, ast.Assign) and
+                src(n.targets[0]) in val_names):
+            continue
+        if isinstance(n.value, ast.Constant):
+            continue
+        n_arms += 1
+        changers = []
+        for x in ast.walk(n.value):
+            if isinstance(x, ast.Call) and isinstance(x.func, ast.Attribute):
+                if x.func.attr in TEXT_CHANGERS:
+                    changers.append(src(x)[-40:])
+                elif x.func.attr == "rstrip":
+                    from_file = isinstance(x.func.value, ast.Call) and \
+                        isinstance(x.func.value.func, ast.Attribute) and \
+                        x.func.value.func.attr == "read" and \
+                        "stdin" not in src(x.func.value)
+                    if x.args or x.keywords or not from_file:
+                        changers.append(src(x)[-40:])
+            elif isinstance(x, ast.Subscript) and \
+                    isinstance(x.slice, ast.Slice):
+                changers.append(src(x)[-40:])
+        text = "{} = {}".format(src(n.targets[0]), src(n.value)[:50])
+        if changers:
+            chk.fail("C16-D11", fi, n, text,
+                     "the supplied value is altered by {} before it is "
+                     "stored: the document saved is not the one the set "
+                     "model predicts".format(", ".join(
+                         "`" + c + "`" for c in changers)))
+        else:
+            chk.ok("C16-D11", fi, n, text, "handed on as supplied")
+    if n_arms < 4:
+        raise AnalysisError("yaml-set main(): only {} value arms found"
+                            .format(n_arms))
+
+
 def run(chk: Check) -> None:
     prog = chk.prog
     funcs = cli_functions(prog)
@@ -869,3 +941,10 @@ def run(chk: Check) -> None:
     d8_loaded_documents(chk, funcs)
     d9_diff_sides(chk)
     d10_twin_arms(chk)
+    d11_value_as_supplied(chk)
+    from rules.shared import shared_state_rule
+    shared_state_rule(chk, "C16-D12", sorted({f.module.relpath
+                                          for f in funcs}), 40)
+    from rules.shared import keyword_coupling_rule
+    keyword_coupling_rule(chk, "C16-D13", sorted({f.module.relpath
+                                              for f in funcs}), 10)
